@@ -198,24 +198,25 @@ func (d *Device) handleABSEvent(ie *input.InputEvent) {
 
 		channel := (d.channel + analog.ChannelOffset) % 16
 		channelNeg := (d.channel + analog.ChannelOffsetNeg) % 16
+		pos, neg := [2]byte{channel, analog.CC}, [2]byte{channelNeg, analog.CCNeg}
 
 		switch {
 		case canBeNegative && analog.Bidirectional:
 			adjustedValue = math.Abs(value)
 			if value < 0 {
 				d.outputEvents <- midi.ControlChangeEvent(channelNeg, analog.CCNeg, byte(int(float64(127)*adjustedValue)))
-				if !d.ccZeroed[analog.CC] {
+				if !d.ccZeroed[pos] {
 					d.outputEvents <- midi.ControlChangeEvent(channel, analog.CC, 0)
-					d.ccZeroed[analog.CC] = true
+					d.ccZeroed[pos] = true
 				}
-				d.ccZeroed[analog.CCNeg] = false
+				d.ccZeroed[neg] = false
 			} else {
 				d.outputEvents <- midi.ControlChangeEvent(channel, analog.CC, byte(int(float64(127)*adjustedValue)))
-				if !d.ccZeroed[analog.CCNeg] {
+				if !d.ccZeroed[neg] {
 					d.outputEvents <- midi.ControlChangeEvent(channelNeg, analog.CCNeg, 0)
-					d.ccZeroed[analog.CCNeg] = true
+					d.ccZeroed[neg] = true
 				}
-				d.ccZeroed[analog.CC] = false
+				d.ccZeroed[pos] = false
 			}
 		case canBeNegative && !analog.Bidirectional:
 			adjustedValue = (value + 1) / 2
@@ -224,18 +225,18 @@ func (d *Device) handleABSEvent(ie *input.InputEvent) {
 			adjustedValue = math.Abs(value*2 - 1)
 			if value < 0.5 {
 				d.outputEvents <- midi.ControlChangeEvent(channelNeg, analog.CCNeg, byte(int(float64(127)*adjustedValue)))
-				if !d.ccZeroed[analog.CC] {
+				if !d.ccZeroed[pos] {
 					d.outputEvents <- midi.ControlChangeEvent(channel, analog.CC, 0)
-					d.ccZeroed[analog.CC] = true
+					d.ccZeroed[pos] = true
 				}
-				d.ccZeroed[analog.CCNeg] = false
+				d.ccZeroed[neg] = false
 			} else {
 				d.outputEvents <- midi.ControlChangeEvent(channel, analog.CC, byte(int(float64(127)*adjustedValue)))
-				if !d.ccZeroed[analog.CCNeg] {
+				if !d.ccZeroed[neg] {
 					d.outputEvents <- midi.ControlChangeEvent(channelNeg, analog.CCNeg, 0)
-					d.ccZeroed[analog.CCNeg] = true
+					d.ccZeroed[neg] = true
 				}
-				d.ccZeroed[analog.CC] = false
+				d.ccZeroed[pos] = false
 			}
 		case !canBeNegative && !analog.Bidirectional:
 			adjustedValue = value
